@@ -516,9 +516,8 @@ package ollama
 //@   ensures result != nil
 //@ func splitExtended
 //@   modifies nothing
-// parseName stays TRUSTED (body not verified): it calls names.Parse, whose contract (names package, not owned by
-// C09) names the package-local constant MaxNameLength and cannot be bound at a call site in this package
-//@ extern func (*Registry).parseName
+// parseName: a name is accepted only if it is fully qualified after merging with the mask
+//@ func (*Registry).parseName
 //@   modifies nothing
 //@   ensures result.1 == nil ==> result.0.IsFullyQualified()
 //@ func (*Registry).parseNameExtended
